@@ -129,17 +129,29 @@ func populate(dir string, d findDir) error {
 			return err
 		}
 	case "dir":
+		// a directory named spokfile, holding a regular file of that name itself
 		if err := os.MkdirAll(filepath.Join(dir, "spokfile"), 0o755); err != nil {
 			return err
 		}
-	}
-	if d.Before {
-		if err := os.WriteFile(filepath.Join(dir, "a-before"), []byte("x"), 0o644); err != nil {
+		if err := os.WriteFile(filepath.Join(dir, "spokfile", "spokfile"), []byte("# inside\n"), 0o644); err != nil {
 			return err
 		}
 	}
+	// other entries, among them near misses of the name: sorting before (`Spokfile`, `spokfil`) and after (`spokfile.bak`, `spokfile.d/`)
+	if d.Before {
+		for _, n := range []string{"a-before", "Spokfile", "spokfil"} {
+			if err := os.WriteFile(filepath.Join(dir, n), []byte("x"), 0o644); err != nil {
+				return err
+			}
+		}
+	}
 	if d.After {
-		if err := os.WriteFile(filepath.Join(dir, "z-after"), []byte("x"), 0o644); err != nil {
+		for _, n := range []string{"z-after", "spokfile.bak"} {
+			if err := os.WriteFile(filepath.Join(dir, n), []byte("x"), 0o644); err != nil {
+				return err
+			}
+		}
+		if err := os.MkdirAll(filepath.Join(dir, "spokfile.d"), 0o755); err != nil {
 			return err
 		}
 	}
